@@ -31,7 +31,7 @@ def shards(tier, seed):
 	out = [dict(name='chunk-slices', kind='chunks')]
 	n = 14 if tier == 'quick' else 48
 	for i in range(n):
-		active = (i == 1) or (tier == 'thorough' and i % 8 == 1)   # spinning waiters under oversubscription: slow, so only a few shards
+		active = tier == 'thorough' and i % 8 == 1   # spinning waiters under oversubscription are very slow on a loaded machine: thorough tier only
 		out.append(dict(name=f'cfg-{i}', kind='cfg', sub=i, ncoll=(3 if active else 10) if tier == 'quick' else (4 if active else 16), nconf=70 if tier == 'quick' else 160,
 		                reps=5 if tier == 'quick' else 50, env={'OMP_NUM_THREADS': '16', 'OMP_WAIT_POLICY': 'active' if active else 'passive'}))
 	out.append(dict(name='asan-cfg', kind='cfg', sub=500, ncoll=3 if tier == 'quick' else 10, nconf=40 if tier == 'quick' else 120, reps=2, sanitizer='asan',
